@@ -2,6 +2,7 @@ use crate::engine::Property;
 
 pub mod c01;
 pub mod c02;
+pub mod c03;
 pub mod c04;
 pub mod c05;
 pub mod c06;
@@ -19,6 +20,7 @@ pub fn all() -> Vec<&'static dyn Property> {
     vec![
         &c01::C01,
         &c02::C02,
+        &c03::C03,
         &c04::C04,
         &c05::C05,
         &c06::C06,
